@@ -235,6 +235,10 @@ func (my *cacheImpl) removeRotted() {
 func (my *cacheImpl) getFutureStatus(future *Future) int {
 	if future != nil {
 		var updateTime = future.getUpdateTime()
+		if updateTime.IsZero() { // 还在加载中: 此时不能读future.err, 它尚未发布
+			return kFutureGood
+		}
+
 		var past = time.Since(updateTime)
 
 		var expire = my.args.normalExpire
